@@ -128,6 +128,18 @@ def case_stopper(case, res):
                             f"stop_early(i={i}, hist={H[j].tolist()}) = {bool(got_e[j])}, documented rule gives "
                             f"{bool(must[j])} (patience={p}, atol={atol}, rtol={rtol})",
                             {"hist": H[j].tolist(), "i": i, "p": p, "atol": atol, "rtol": rtol})
+                    # the same calls with a plain Python int index (the signature says `int | Array`), eagerly, on a few
+                    # histories: stop_now and continue_ must say the same as with an array index, and be each other's negation
+                    for j in range(0, N, max(1, N // 3)):
+                        hj = jnp.asarray(H[j])
+                        sn_i = bool(st.stop_now(int(i), hj))
+                        co_i = bool(st.continue_(int(i), hj))
+                        res.mon("stop_now_rule")
+                        if sn_i != bool(got_n[j]) or co_i == sn_i:
+                            res.violation("stop-now", f"Python-int index: stop_now(i={i}) = {sn_i}, continue_(i={i}) = {co_i}; with an "
+                                          f"array index stop_now = {bool(got_n[j])} (hist={H[j].tolist()}, patience={p}, max_iter={max_iter}, "
+                                          f"atol={atol}, rtol={rtol})", {"hist": H[j].tolist(), "i": i, "p": p, "max_iter": max_iter})
+                            break
                     lim = i >= max_iter - 1
                     exp_now = got_e | lim  # stop_now = stop_early or limit (stop_early judged above)
                     res.mon("stop_now_rule", N)
